@@ -215,6 +215,19 @@ fn record(p: &str, b: &str, c: &Counters) {
     }
 }
 
+/// A small real directory tree at a fixed place (so that a replay finds the same paths): `a` is a link to the
+/// deeper directory `b/b`, `b/a` a link back up. create=false removes it again.
+const REAL_ROOT: &str = "/dev/shm/rvmc-c16-real";
+fn real_fixture(create: bool) -> String {
+    let _ = std::fs::remove_dir_all(REAL_ROOT);
+    if create {
+        let _ = std::fs::create_dir_all(format!("{}/b/b", REAL_ROOT));
+        let _ = std::os::unix::fs::symlink("b/b", format!("{}/a", REAL_ROOT));
+        let _ = std::os::unix::fs::symlink("..", format!("{}/b/a", REAL_ROOT));
+    }
+    REAL_ROOT.to_string()
+}
+
 fn sweep(ctx: &Ctx, names: &[&str], max_comp: usize, c: &Counters) -> u64 {
     let paths = enum_paths(names, max_comp);
     let n = paths.len() as u64;
@@ -262,6 +275,20 @@ pub fn run(ctx: &Ctx) -> i32 {
     let ncase = ["a", "A", "ä", "Ａ", "b"];
     let t = sweep(ctx, &ncase, 3, &c);
     bounds.push(format!("<=3 components over {{a,A,ä,Ａ,b}} (names equal up to case / accent / width): {} ordered pairs", t));
+    // paths that exist on the real filesystem, some of them through links: relative() is lexical and looks at
+    // nothing but its two arguments (its own documentation calls it filesystem agnostic)
+    {
+        let root = real_fixture(true);
+        let inner = enum_paths(&["a", "b"], 3);
+        let paths: Vec<String> = inner.iter().map(|x| if x == "/" { root.clone() } else { format!("{}{}", root, x) }).chain(["/".to_string(), "/dev".to_string()]).collect();
+        for p in &paths {
+            for b in &paths {
+                record(p, b, &c);
+            }
+        }
+        real_fixture(false);
+        bounds.push(format!("{} x {} pairs of paths below a directory that exists on the real filesystem ({}: a -> b/b, b/a -> .., b/b a directory)", paths.len(), paths.len(), root));
+    }
     // long paths: the number of '..' and of kept components grows with the depth; every depth up to 64 on
     // either side, against the root, a sibling chain and a chain sharing a prefix of every length
     {
@@ -420,6 +447,10 @@ fn replay(ctx: &Ctx, f: &std::path::Path) -> i32 {
     }
     let p = case.get("path").and_then(|x| x.as_str()).expect("case.path").to_string();
     let b = case.get("base").and_then(|x| x.as_str()).expect("case.base").to_string();
+    let real = p.starts_with(REAL_ROOT) || b.starts_with(REAL_ROOT);
+    if real {
+        real_fixture(true);
+    }
     let got = catch_unwind(AssertUnwindSafe(|| sys::relative(&p, &b)));
     let got_s = match &got {
         Ok(Ok(x)) => format!("Ok({:?})", x),
@@ -429,7 +460,11 @@ fn replay(ctx: &Ctx, f: &std::path::Path) -> i32 {
     println!("replay C16 path={:?} base={:?}", p, b);
     println!("  observed : relative(path, base) = {}", got_s);
     println!("  expected : {:?} (reference navigation; any result satisfying the statement is accepted)", crate::models::tree::ref_relative(&p, &b));
-    match check_pair(&p, &b) {
+    let verdict = check_pair(&p, &b);
+    if real {
+        real_fixture(false);
+    }
+    match verdict {
         Some((sig, detail)) => {
             println!("{}\n  signature: {}", detail, sig);
             println!("VIOLATION property={} replay={}", ctx.prop, f.display());
